@@ -24,6 +24,7 @@ from vlib import coqprint as cp
 import kdrv
 
 logging.getLogger('kmip').setLevel(logging.CRITICAL + 1)
+logging.disable(logging.CRITICAL)
 
 KV = enums.KMIPVersion
 VERSIONS = [KV.KMIP_1_0, KV.KMIP_1_1, KV.KMIP_1_2, KV.KMIP_1_3, KV.KMIP_1_4, KV.KMIP_2_0]
@@ -288,6 +289,10 @@ def resp_coq(items):
     return '(Decoded [%s])' % '; '.join(ritem_coq(r) for r in items)
 
 
+class HarnessError(BaseException):
+    """A failure of the harness itself (never to be mistaken for client behaviour)."""
+
+
 class Scripted:
     """Responder: decode the request with the real server-side classes, answer as scripted."""
 
@@ -307,12 +312,16 @@ class Scripted:
         except Exception as e:      # the request is not decodable by the server-side classes
             self.request_error = '%s: %s' % (type(e).__name__, e)
             rop = None
-        if self.raw is not None:
-            out = self.raw
-        else:
-            out = build_response(self.version, rop, self.items, self.header_version)
-            if self.mangle is not None:
-                out = self.mangle(out)
+        try:
+            if self.raw is not None:
+                out = self.raw
+            else:
+                out = build_response(self.version, rop, self.items, self.header_version)
+                if self.mangle is not None:
+                    out = self.mangle(out)
+        except Exception as e:
+            import traceback
+            raise HarnessError('cannot build scripted response: %s' % traceback.format_exc())
         self.response_bytes = out
         return chunk(out, self.plan)
 
@@ -364,8 +373,6 @@ def gen_uid(rng):
     r = rng.random()
     if r < 0.5:
         return str(rng.randint(1, 10 ** rng.randint(1, 9)))
-    if r < 0.6:
-        return ''
     return gen_text(rng, 1, 40)
 
 
@@ -399,10 +406,11 @@ def gen_secret(rng):
     return FACTORY.convert(o), o.object_type
 
 
-def gen_attribute(rng):
+def gen_attribute(rng, v=None):
     k = rng.randrange(5)
     if k == 0:
-        return kdrv.attr('NAME', kdrv.name_value(gen_text(rng, 1, 12)), rng.choice([None, 0, 1, 2]))
+        idx = None if (v is not None and v >= KV.KMIP_2_0) else rng.choice([None, 0, 1, 2])
+        return kdrv.attr('NAME', kdrv.name_value(gen_text(rng, 1, 12)), idx)
     if k == 1:
         return kdrv.attr('CRYPTOGRAPHIC_LENGTH', rng.choice([128, 192, 256, 2048]))
     if k == 2:
@@ -642,12 +650,12 @@ def p_get(rng, v):
 
 def p_get_attributes(rng, v):
     return payloads.GetAttributesResponsePayload(unique_identifier=gen_uid(rng),
-                                                 attributes=[gen_attribute(rng) for _ in range(rng.randint(0, 4))])
+                                                 attributes=[gen_attribute(rng, v) for _ in range(rng.randint(1 if v >= KV.KMIP_2_0 else 0, 4))])
 
 
 def p_get_attribute_list(rng, v):
     return payloads.GetAttributeListResponsePayload(unique_identifier=gen_uid(rng),
-                                                    attribute_names=rng.sample(ATTR_NAMES, rng.randint(0, 6)))
+                                                    attribute_names=rng.sample(ATTR_NAMES, rng.randint(1, 6)))
 
 
 def p_activate(rng, v):
@@ -698,7 +706,7 @@ def p_sign(rng, v):
 
 def p_delete_attribute(rng, v):
     if v < KV.KMIP_2_0:
-        return payloads.DeleteAttributeResponsePayload(unique_identifier=gen_uid(rng), attribute=gen_attribute(rng))
+        return payloads.DeleteAttributeResponsePayload(unique_identifier=gen_uid(rng), attribute=gen_attribute(rng, v))
     return payloads.DeleteAttributeResponsePayload(unique_identifier=gen_uid(rng))
 
 
